@@ -60,16 +60,19 @@ Names == DOMAIN Methods
 
 \* parameter classes: "valid", or <<position, defect>> with defect in
 \*  "unknown" (unknown name) / "badstr" / "badint" / "badtype" (strategies) / "unmanaged" (for "mapp")
-Defects(kind) == CASE kind \in {"strategy", "cstrategy"} -> {"badstr", "badint", "badtype"}
+\*  "badbool" (a boolean where a strategy is expected: neither a name nor a documented value)
+\*  "barename" (a namespec made of an application name only, no process of that name: not a namespec of a process)
+Defects(kind) == CASE kind \in {"strategy", "cstrategy"} -> {"badstr", "badint", "badtype", "badbool"}
                    [] kind = "mapp" -> {"unknown", "unmanaged"}
-                   [] kind \in {"app", "proc", "inst", "prog", "lproc"} -> {"unknown"}
+                   [] kind = "proc" -> {"unknown", "barename"}
+                   [] kind \in {"app", "inst", "prog", "lproc"} -> {"unknown"}
                    [] OTHER -> {}
 ParamClasses(m) == {<<0, "valid">>} \cup
                    {<<i, d>> : i \in DOMAIN Methods[m].params, d \in UNION {Defects(Methods[m].params[j]) : j \in DOMAIN Methods[m].params}}
 ValidPC(m, pc) == pc[1] = 0 \/ pc[2] \in Defects(Methods[m].params[pc[1]])
 
-FaultOf(defect) == CASE defect = "unknown" -> "BAD_NAME"
-                     [] defect \in {"badstr", "badint", "badtype"} -> "INCORRECT_PARAMETERS"
+FaultOf(defect) == CASE defect \in {"unknown", "barename"} -> "BAD_NAME"
+                     [] defect \in {"badstr", "badint", "badtype", "badbool"} -> "INCORRECT_PARAMETERS"
                      [] defect = "unmanaged" -> "NOT_MANAGED"
 
 \* states in which the method is served; "EITHER" where the documentation is ambiguous
